@@ -96,6 +96,8 @@ package server
 //@   requires entry: typeis(key, string) && typeis(value, *Client) && unboxed(value, *Client) != nil
 //@   modifies ghostint(*t, "sent")
 //@   guard-call authd: "SendEvent" unboxed(value, *Client).Authenticated == true
+// C11: every client is addressed by its own id and gets the event that was broadcast; the originator is skipped
+//@   guard-call addressee: "SendEvent" arg(1) == unboxed(key, string) && arg(1) != *ExceptClient && arg(2) == *pk
 // C11: the fan-out never stops early: whatever happens with one client, Range goes on to the next
 //@   ensures goon: r == true
 
